@@ -88,18 +88,36 @@ def convert_capture(deck_text, args=()):
     import t4_geom_convert.main as M
     saved = []
 
+    import functools
+    import inspect
+
+    def argsof(orig, args, kwargs):
+        """the arguments of a call by parameter name, whatever way they were passed; {} when the call does not fit the
+        signature we know (a refactored function: the capture is skipped, never the call)"""
+        try:
+            b = inspect.signature(orig).bind(*args, **kwargs)
+            b.apply_defaults()
+            return dict(b.arguments)
+        except Exception:  # noqa
+            return {}
+
     def patch(obj, name, make):
         if not hasattr(obj, name):
             cap.missing.append('%s.%s' % (getattr(obj, '__name__', obj), name))
             return
         orig = getattr(obj, name)
-        setattr(obj, name, make(orig))
+        w = make(orig)
+        try:
+            w = functools.wraps(orig)(w)
+        except Exception:  # noqa
+            pass
+        setattr(obj, name, w)
         saved.append((obj, name, orig))
 
     depth = {'compl': 0, 'conv': 0}
 
     def mk_compl(orig):
-        def pot_complement(self, tree):
+        def pot_complement(self, *args, **kwargs):
             top = depth['compl'] == 0
             if top and cap.complement_in is None:
                 try:
@@ -109,7 +127,7 @@ def convert_capture(deck_text, args=()):
                     cap.error = 'complement-encode: %r' % (e,)
             depth['compl'] += 1
             try:
-                res = orig(self, tree)
+                res = orig(self, *args, **kwargs)
             finally:
                 depth['compl'] -= 1
             if top:
@@ -121,8 +139,13 @@ def convert_capture(deck_text, args=()):
         return pot_complement
 
     def mk_conv(orig):
-        def pot_convert(self, cell, matching, union_ids):
+        def pot_convert(self, *args, **kwargs):
             top = depth['conv'] == 0
+            a_ = argsof(orig, (self,) + args, kwargs) if top else {}
+            cell, matching, union_ids = a_.get('cell'), a_.get('matching'), a_.get('union_ids')
+            if top and (cell is None or matching is None or union_ids is None):
+                cap.error = 'compile-encode: pot_convert called with other parameters'
+                top = False
             if top:
                 if cap.compile_in is None:
                     try:
@@ -141,7 +164,7 @@ def convert_capture(deck_text, args=()):
                 cap.compile_keys.append(key)
             depth['conv'] += 1
             try:
-                return orig(self, cell, matching, union_ids)
+                return orig(self, *args, **kwargs)
             finally:
                 depth['conv'] -= 1
         return pot_convert
@@ -179,13 +202,15 @@ def convert_capture(deck_text, args=()):
         return convertMCNPGeometry
 
     def mk_inline(orig):
-        def inline_cells(dic, max_inline_score):
+        def inline_cells(*args, **kwargs):
+            a_ = argsof(orig, args, kwargs)
+            dic, max_inline_score = a_.get('dic'), a_.get('max_inline_score')
             try:
                 cap.inline_in = (float(max_inline_score),
                                  [(int(k), int(c.universe), geom_sexp(c.geometry)) for k, c in dic.items()])
             except Exception as e:  # noqa
                 cap.error = 'inline-capture: %r' % (e,)
-            res = orig(dic, max_inline_score)
+            res = orig(*args, **kwargs)
             try:
                 cap.inline_out = [(int(k), geom_sexp(c.geometry)) for k, c in dic.items()]
             except Exception as e:  # noqa
@@ -194,9 +219,10 @@ def convert_capture(deck_text, args=()):
         return inline_cells
 
     def mk_lat(orig):
-        def develop_lattice(self, key):
+        def develop_lattice(self, *args, **kwargs):
             rec = None
             try:
+                key = argsof(orig, (self,) + args, kwargs)['key']
                 cell = self.dic_cell_mcnp[key]
                 if cell.lattice is not None:
                     from t4_geom_convert.Kernel.Volume.Lattice import squareLatticeBaseVectors, hexLatticeBaseVectors
@@ -214,17 +240,21 @@ def convert_capture(deck_text, args=()):
                                trcl=[[float(x) for x in t] for t in (cell.trcl or [])], elements=[], error=None)
                     orig_ct = self.cell_transform
 
-                    def ct(cell_key, transform, cache=True):
-                        nk = orig_ct(cell_key, transform, cache=cache)
-                        if cell_key == key and cache is False:
-                            rec['elements'].append((int(nk), [float(x) for x in transform[:3]]))
+                    def ct(*a2, **k2):
+                        nk = orig_ct(*a2, **k2)
+                        try:
+                            b2 = argsof(orig_ct, a2, k2)
+                            if b2.get('cell_key') == key and b2.get('cache') is False:
+                                rec['elements'].append((int(nk), [float(x) for x in b2['transform'][:3]]))
+                        except Exception as e:  # noqa
+                            cap.error = 'lattice-capture: %r' % (e,)
                         return nk
                     self.cell_transform = ct
             except Exception as e:  # noqa
                 cap.error = 'lattice-capture: %r' % (e,)
                 rec = None
             try:
-                return orig(self, key)
+                return orig(self, *args, **kwargs)
             except Exception as e:
                 if rec is not None:
                     rec['error'] = type(e).__name__
@@ -247,8 +277,10 @@ def convert_capture(deck_text, args=()):
         return develop_lattice
 
     def mk_write(orig):
-        def writeT4Geometry(dic_surface_t4, dic_volume, skipped_cells, ofile):
+        def writeT4Geometry(*args, **kwargs):
             try:
+                a_ = argsof(orig, args, kwargs)
+                dic_surface_t4, dic_volume, skipped_cells = a_['dic_surface_t4'], a_['dic_volume'], a_['skipped_cells']
                 surfs = {}
                 for k, sf in dic_surface_t4.items():
                     tr = None
@@ -258,7 +290,7 @@ def convert_capture(deck_text, args=()):
                 cap.written = {'surfs': surfs, 'vols': vols_struct(dic_volume), 'skipped': [int(k) for k in skipped_cells]}
             except Exception as e:  # noqa
                 cap.error = 'write-capture: %r' % (e,)
-            return orig(dic_surface_t4, dic_volume, skipped_cells, ofile)
+            return orig(*args, **kwargs)
         return writeT4Geometry
 
     patch(M, 'writeT4Geometry', mk_write)
@@ -290,7 +322,12 @@ def convert_capture(deck_text, args=()):
                 res_txt, int(self.new_surf_key), int(self.new_cell_key), surfs, newc, newcache)})
 
     def mk_ct(orig):
-        def cell_transform(self, cell_key, transform, cache=True):
+        def cell_transform(self, *args, **kwargs):
+            a_ = argsof(orig, (self,) + args, kwargs)
+            if not all(k in a_ for k in ('cell_key', 'transform', 'cache')):
+                cap.error = 'pottransform-encode: cell_transform called with other parameters'
+                return orig(self, *args, **kwargs)
+            cell_key, transform, cache = a_['cell_key'], a_['transform'], a_['cache']
             top = ptd['depth'] == 0 and len(transform) and len(cap.pt_calls) < 60
             snap = None
             if top:
@@ -301,7 +338,7 @@ def convert_capture(deck_text, args=()):
                     snap = None
             ptd['depth'] += 1
             try:
-                res = orig(self, cell_key, transform, cache=cache)
+                res = orig(self, *args, **kwargs)
             finally:
                 ptd['depth'] -= 1
             if ptd['depth'] == 0:
@@ -319,8 +356,13 @@ def convert_capture(deck_text, args=()):
         return cell_transform
 
     def mk_pt(orig):
-        def pot_transform(self, p_tree, p_transf):
+        def pot_transform(self, *args, **kwargs):
             from MIP.geom.semantics import Surface
+            a_ = argsof(orig, (self,) + args, kwargs)
+            if not all(k in a_ for k in ('p_tree', 'p_transf')):
+                cap.error = 'pottransform-encode: pot_transform called with other parameters'
+                return orig(self, *args, **kwargs)
+            p_tree, p_transf = a_['p_tree'], a_['p_transf']
             top = ptd['depth'] == 0 and p_transf is not None and len(p_transf) and len(cap.pt_calls) < 60
             snap = None
             if top:
@@ -332,7 +374,7 @@ def convert_capture(deck_text, args=()):
                     snap = None
             ptd['depth'] += 1
             try:
-                res = orig(self, p_tree, p_transf)
+                res = orig(self, *args, **kwargs)
             finally:
                 ptd['depth'] -= 1
             if isinstance(p_tree, Surface) and p_transf is not None and len(p_transf) and ptd['leaves'] is not None:
@@ -346,9 +388,11 @@ def convert_capture(deck_text, args=()):
         return pot_transform
 
     def mk_gc(orig):
-        def constructGeomCompT4(dicVol, dic_cellMCNP):
-            out = orig(dicVol, dic_cellMCNP)
+        def constructGeomCompT4(*args, **kwargs):
+            out = orig(*args, **kwargs)
             try:
+                a_ = argsof(orig, args, kwargs)
+                dicVol, dic_cellMCNP = a_['dicVol'], a_['dic_cellMCNP']
                 from . import lean as _lean
                 vols, owners = [], []
                 for k, v in dicVol.items():
@@ -371,8 +415,9 @@ def convert_capture(deck_text, args=()):
         return constructGeomCompT4
 
     def mk_fill(orig):
-        def pot_fill(self, key, dict_universe, inline_filled=False, inline_filling=False):
+        def pot_fill(self, *args, **kwargs):
             from t4_geom_convert.Kernel.Volume.CellMCNP import CellRef
+            key = argsof(orig, (self,) + args, kwargs).get('key')
             try:
                 cell = self.dic_cell_mcnp[key]
                 if cell.fillid is not None:
@@ -380,7 +425,7 @@ def convert_capture(deck_text, args=()):
                                                  [pt_tok(t) for t in (cell.trcl or []) if len(t)])
             except Exception as e:  # noqa
                 cap.error = 'fillframes: %r' % (e,)
-            res = orig(self, key, dict_universe, inline_filled, inline_filling)
+            res = orig(self, *args, **kwargs)
             try:
                 if self.dic_cell_mcnp[key].fillid is not None:
                     moves = ptd.setdefault('moves', {})
